@@ -25,7 +25,7 @@ RULE = (
 )
 ASSUMPTIONS = ["restrict() of labmc/optspace.py defines 'restricted to the keys the class reports'"]
 
-KINDS = ["flat", "dotted", "dotted2", "deep", "defaulted", "ds", "applied", "const", "inherited"]
+KINDS = ["flat", "dotted", "dotted2", "deep", "defaulted", "ds", "applied", "const", "strconst", "inherited"]
 SPEC = {
     "flat": [("A", [1, 2])],
     "dotted": [("S.X", [1, 2]), ("S.Y", [ABSENT, 9])],
@@ -35,6 +35,7 @@ SPEC = {
     "ds": [("C", [ABSENT, 4])],
     "applied": [("D", [ABSENT, 5])],
     "const": [],
+    "strconst": [],
     "inherited": [("E", [ABSENT, 6])],
 }
 
@@ -59,6 +60,7 @@ def build_class(kinds):
         "ds": d,
         "applied": Option("D", 1) >> f_tag,
         "const": 7,
+        "strconst": "{A}/{S.X}.csv",
     }
     ns = {"__annotations__": {}}
     bases = ()
@@ -167,16 +169,19 @@ def check_derived(order, res):
     from labrea import Option, datasetclass
 
     fails = []
-    Parent = datasetclass(type("Parent", (), {"__annotations__": {"p": int}, "p": Option("P.X")}))
-    Child = datasetclass(type("Child", (Parent,), {"__annotations__": {"c": int}, "c": Option("C.Y", 0)}))
+    Parent = datasetclass(type("Parent", (), {"__annotations__": {"p": int, "o": int, "k": int}, "p": Option("P.X"), "o": Option("NEVER"), "k": 1}))
+    # the child adds a member and overrides two inherited ones (an evaluatable and a constant)
+    Child = datasetclass(type("Child", (Parent,), {"__annotations__": {"c": int, "o": int, "k": int}, "c": Option("C.Y", 0), "o": Option("P.X") >> f_tag, "k": 2}))
     dicts = [{"P": {"X": x}, **({"C": {"Y": y}} if y is not None else {})} for x in (1, 2) for y in (None, 5, 6)]
     if order == "parent-first":
         for o in dicts:
-            Parent(o), Parent.keys(o), Parent.explain(o), Parent.validate(o)
+            po = dict(o, NEVER=0)
+            Parent(po), Parent.keys(po), Parent.explain(po), Parent.validate(po)
     if order == "child-first":
         Child(dicts[1])
         for o in dicts:
-            Parent(o), Parent.keys(o)
+            po = dict(o, NEVER=0)
+            Parent(po), Parent.keys(po)
 
     def fail(kind, d, o):
         if not any(f["sig"].startswith(f"C19|derived|{kind}") for f in fails):
@@ -197,8 +202,8 @@ def check_derived(order, res):
             fail("instantiation-failed", repr(inst), o)
             continue
         obj = inst.value
-        if obj.p != o["P"]["X"] or obj.c != o.get("C", {}).get("Y", 0):
-            fail("attribute-differs-from-member-evaluation", f"p={obj.p!r} c={obj.c!r}", o)
+        if obj.p != o["P"]["X"] or obj.c != o.get("C", {}).get("Y", 0) or obj.o != ("f", o["P"]["X"]) or obj.k != 2:
+            fail("attribute-differs-from-member-evaluation", f"p={obj.p!r} c={obj.c!r} o={obj.o!r} k={obj.k!r}", o)
         r = restrict(o, want_keys)
         if repr(obj) != f"Child({_ordered(r, want_keys)!r})":
             fail("repr", f"{repr(obj)} vs Child({_ordered(r, want_keys)!r})", o)
